@@ -7,8 +7,8 @@ CONSTANTS
   Payloads = {1, 2}
   Spellings = {"bare"}
 INIT Init
-NEXT Next
+NEXT NextFull
 VIEW MCView
 INVARIANTS TypeOK
-PROPERTIES PA_JobsImmutable PA_IdUnique PA_ExactlyOneCall PA_CallIsStoredCall PA_CallerAppended PA_FailureEnqueuesNothing
+PROPERTIES PA_JobsImmutable PA_IdUnique PA_ExactlyOneCall PA_CallIsStoredCall PA_CallerAppended PA_FailureEnqueuesNothing PA_QueryIsStored PA_DiscardedIsInvisible
 CHECK_DEADLOCK FALSE
